@@ -19,6 +19,10 @@ type Script struct {
 	ClientClose  bool  `json:"client_close"` // client closes after its writes (server must then read everything and see EOF)
 	ServerClose  bool  `json:"server_close"`
 	MaxRead      int   `json:"max_read"` // read buffer sizes are random in [1,MaxRead]
+	// ServerStallMs / ClientStallMs: the reader on that side does not read at all for this long
+	// (back-pressure: the peer keeps writing into full queues), then reads everything
+	ServerStallMs int `json:"server_stall_ms,omitempty"`
+	ClientStallMs int `json:"client_stall_ms,omitempty"`
 }
 
 func sum(xs []int) int {
@@ -113,18 +117,30 @@ func reader(conn net.Conn, rng *rand.Rand, seed int64, sess, dir, want, maxRead 
 
 func writer(conn net.Conn, seed int64, sess, dir int, sizes []int, tag []byte, res *DirResult) {
 	off := 0
+	// one buffer re-used for every Write and overwritten as soon as Write returns: io.Writer
+	// implementations must not retain the caller's slice
+	var buf []byte
 	for i, sz := range sizes {
-		b := make([]byte, sz)
-		FillStream(b, seed, sess, dir, off)
-		if i == 0 && tag != nil {
-			b = append(append([]byte(nil), tag...), b...)
+		need := sz
+		if i == 0 {
+			need += len(tag)
 		}
-		n, err := conn.Write(b)
+		if cap(buf) < need {
+			buf = make([]byte, need)
+		}
+		b := buf[:need]
+		pre := 0
 		if i == 0 && tag != nil {
-			n -= len(tag)
-			if n < 0 {
-				n = 0
-			}
+			pre = copy(b, tag)
+		}
+		FillStream(b[pre:], seed, sess, dir, off)
+		n, err := conn.Write(b)
+		for j := range b {
+			b[j] = 0xA5 // scribble
+		}
+		n -= pre
+		if n < 0 {
+			n = 0
 		}
 		res.Written += n
 		off += sz
@@ -135,9 +151,65 @@ func writer(conn net.Conn, seed int64, sess, dir int, sizes []int, tag []byte, r
 	}
 }
 
-// RunTransfer runs the scripts concurrently, one proxy connection each, over the world's client
+// Endpoints is what a transfer needs from a pair of real endpoints.
+type Endpoints interface {
+	// DialScript opens the proxy connection for script k; tag (may be nil) is prepended to the
+	// client's first write so that the accepting side can identify the script.
+	DialScript(ctx context.Context, k int) (conn net.Conn, tag []byte, err error)
+	// AcceptScript accepts one proxy connection and says which script it belongs to (-1 = unknown).
+	AcceptScript(nscripts int, timeout time.Duration) (conn net.Conn, k int, err error)
+}
+
+// DialScript / AcceptScript for bare protocol.Mux endpoints: a 4-byte tag identifies the script.
+func (w *World) DialScript(ctx context.Context, k int) (net.Conn, []byte, error) {
+	conn, err := w.Dial(ctx)
+	var tag [4]byte
+	binary.BigEndian.PutUint32(tag[:], uint32(k))
+	return conn, tag[:], err
+}
+
+func (w *World) AcceptScript(n int, timeout time.Duration) (net.Conn, int, error) {
+	conn, err := w.Server.Accept()
+	if err != nil {
+		return nil, -1, err
+	}
+	var tag [4]byte
+	conn.SetReadDeadline(time.Now().Add(timeout))
+	if _, err := io.ReadFull(conn, tag[:]); err != nil {
+		return conn, -1, nil
+	}
+	conn.SetReadDeadline(time.Time{})
+	k := int(binary.BigEndian.Uint32(tag[:]))
+	if k < 0 || k >= n {
+		return conn, -1, nil
+	}
+	return conn, k, nil
+}
+
+// DialScript / AcceptScript for the exported APIs: the SOCKS5 destination port identifies the script.
+func (w *APIWorld) DialScript(ctx context.Context, k int) (net.Conn, []byte, error) {
+	conn, err := w.Dial(ctx, &net.TCPAddr{IP: net.IPv4(192, 0, 2, 1), Port: 1000 + k})
+	return conn, nil, err
+}
+
+func (w *APIWorld) AcceptScript(n int, timeout time.Duration) (net.Conn, int, error) {
+	conn, req, err := w.AcceptAndReply()
+	if err != nil {
+		if conn != nil {
+			return conn, -1, nil
+		}
+		return nil, -1, err
+	}
+	k := int(req.DstAddr.Port) - 1000
+	if k < 0 || k >= n {
+		return conn, -1, nil
+	}
+	return conn, k, nil
+}
+
+// RunTransfer runs the scripts concurrently, one proxy connection each, over the endpoints' client
 // and server. It returns when every reader finished or the timeout expired.
-func RunTransfer(w *World, scripts []Script, seed int64, timeout time.Duration) *TransferResult {
+func RunTransfer(w Endpoints, scripts []Script, seed int64, timeout time.Duration) *TransferResult {
 	res := &TransferResult{Sessions: make([]SessionResult, len(scripts))}
 	for i := range res.Sessions {
 		res.Sessions[i].C2S.MismatchAt = -1
@@ -163,7 +235,7 @@ func RunTransfer(w *World, scripts []Script, seed int64, timeout time.Duration) 
 	// server side
 	go func() {
 		for {
-			conn, err := w.Server.Accept()
+			conn, k, err := w.AcceptScript(len(scripts), timeout)
 			if err != nil {
 				return
 			}
@@ -174,25 +246,15 @@ func RunTransfer(w *World, scripts []Script, seed int64, timeout time.Duration) 
 				return
 			default:
 			}
+			if k < 0 {
+				resMu.Lock()
+				res.Unknown++
+				resMu.Unlock()
+				continue
+			}
 			wg.Add(1)
-			go func(conn net.Conn) {
+			go func(conn net.Conn, k int) {
 				defer wg.Done()
-				var tag [4]byte
-				conn.SetReadDeadline(time.Now().Add(timeout))
-				if _, err := io.ReadFull(conn, tag[:]); err != nil {
-					resMu.Lock()
-					res.Unknown++
-					resMu.Unlock()
-					return
-				}
-				conn.SetReadDeadline(time.Time{})
-				k := int(binary.BigEndian.Uint32(tag[:]))
-				if k < 0 || k >= len(scripts) {
-					resMu.Lock()
-					res.Unknown++
-					resMu.Unlock()
-					return
-				}
 				sc := scripts[k]
 				sr := &res.Sessions[k]
 				sr.Accepted = true
@@ -205,13 +267,16 @@ func RunTransfer(w *World, scripts []Script, seed int64, timeout time.Duration) 
 				}()
 				go func() {
 					defer inner.Done()
+					if sc.ServerStallMs > 0 {
+						time.Sleep(time.Duration(sc.ServerStallMs) * time.Millisecond)
+					}
 					reader(conn, rand.New(rand.NewSource(seed+int64(k)*7+1)), seed, k, 0, sum(sc.ClientWrites), sc.MaxRead, sc.ClientClose, &sr.C2S)
 				}()
 				inner.Wait()
 				if sc.ServerClose {
 					conn.Close()
 				}
-			}(conn)
+			}(conn, k)
 		}
 	}()
 
@@ -223,7 +288,7 @@ func RunTransfer(w *World, scripts []Script, seed int64, timeout time.Duration) 
 			sc := scripts[k]
 			sr := &res.Sessions[k]
 			dctx, dcancel := context.WithTimeout(ctx, timeout)
-			conn, err := w.Dial(dctx)
+			conn, tagBytes, err := w.DialScript(dctx, k)
 			dcancel()
 			if err != nil {
 				sr.DialErr = err.Error()
@@ -231,23 +296,24 @@ func RunTransfer(w *World, scripts []Script, seed int64, timeout time.Duration) 
 				return
 			}
 			all.add(conn)
-			var tag [4]byte
-			binary.BigEndian.PutUint32(tag[:], uint32(k))
 			var inner sync.WaitGroup
 			inner.Add(2)
 			cw := sc.ClientWrites
 			if len(cw) == 0 {
-				cw = []int{0} // the tag must be written for the server to identify the session
+				cw = []int{0} // something must be written for the server side to see the session
 			}
 			go func() {
 				defer inner.Done()
-				writer(conn, seed, k, 0, cw, tag[:], &sr.C2S)
+				writer(conn, seed, k, 0, cw, tagBytes, &sr.C2S)
 				if sc.ClientClose {
 					// wait for our own reads first, else closing would cut the server's stream
 				}
 			}()
 			go func() {
 				defer inner.Done()
+				if sc.ClientStallMs > 0 {
+					time.Sleep(time.Duration(sc.ClientStallMs) * time.Millisecond)
+				}
 				reader(conn, rand.New(rand.NewSource(seed+int64(k)*7+2)), seed, k, 1, sum(sc.ServerWrites), sc.MaxRead, sc.ServerClose, &sr.S2C)
 			}()
 			inner.Wait()
